@@ -1076,7 +1076,7 @@ main(int argc, char** argv)
   cfgs.push_back({ 16, 5, 3, 2, 8, 0, -1, "" });
   cfgs.push_back({ 12, 6, 5, 3, 3, 0, -1, "" });
   // generated small scanners
-  const int ngen = thorough ? 300 : 60;
+  const int ngen = thorough ? 600 : 60;
   for (int k = 0; k < ngen; ++k)
     {
       Cfg c;
@@ -1123,7 +1123,7 @@ main(int argc, char** argv)
     }
   // the same formulas are copied into the Generic / BlocksOnCylindrical classes (no TOF, no view mashing there):
   // generated block scanners, every span / max_delta
-  const int nblk = thorough ? 60 : 18;
+  const int nblk = thorough ? 120 : 18;
   for (int k = 0; k < nblk; ++k)
     {
       Cfg c;
@@ -1172,7 +1172,7 @@ main(int argc, char** argv)
   const char* names_thorough[] = { "ECAT 953", "ECAT 931", "ECAT 962", "GE Advance", "Siemens mMR", "GE Discovery 690", "ECAT HRRT", "GE Signa PET/MR", "Siemens mCT", "GE Discovery MI 3 rings", "GE Discovery STE", "ECAT EXACT3D" };
   const char** names = thorough ? names_thorough : names_quick;
   const int nn = thorough ? 12 : 6;
-  for (int rep = 0; rep < (thorough ? 3 : 1); ++rep)
+  for (int rep = 0; rep < (thorough ? 4 : 1); ++rep)
     for (int k = 0; k < nn; ++k)
       {
         shared_ptr<Scanner> s(Scanner::get_scanner_from_name(names[k]));
